@@ -136,3 +136,30 @@ def check_reconfigured(case: dict, prefix: str) -> Verdict:
     v.nontrivial = any(oracles.failed(case, att) for att in cvs[0].atts) and any(oracles.failed(case, att) for att in cvs[1].atts)
     v.tag("reconfigured:" + "+".join(sorted(spec)), "entry:" + case["entry"])
     return v
+
+
+def midflight_case(profile: dict, keys: list, entries: list):
+    """One call during which (inside the k-th back-off sleep) the caller rebinds public attributes of the policy."""
+
+    @st.composite
+    def build(draw):
+        p = dict(profile)
+        p.pop("multi_call", None)
+        p["budget"] = 0.0
+        p["always_fail"] = True
+        case = draw(gen.retry_case(p))
+        spec: dict = {}
+        for k in draw(st.lists(st.sampled_from(keys), min_size=1, max_size=2, unique=True)):
+            if k == "deadline":
+                spec[k] = draw(st.one_of(st.integers(1, 32), st.integers(1, 256)))
+            elif k == "max_attempts":
+                spec[k] = draw(st.sampled_from([1, 2, 3, 5, 8, 12]))
+            elif k == "max_unknown":
+                spec[k] = draw(st.sampled_from([0, 0, 1, 2]))
+            elif k == "per_class":
+                spec[k] = draw(st.dictionaries(st.sampled_from(gen.RETRYABLE), st.sampled_from([0, 0, 1, 2]), min_size=1, max_size=3))
+        case["calls"][0]["midflight"] = {"at_sleep": draw(st.sampled_from([0, 0, 1, 2])), "set": spec}
+        case["entry"] = draw(st.sampled_from(entries))
+        return case
+
+    return build()
